@@ -137,6 +137,24 @@ def _multiset(pts):
     return sorted(tuple(round(c, 9) for c in p) for p in pts)
 
 
+def _same_multiset(A, B, rel=1e-7):
+    """Every point of B is matched by a distinct point of A within tolerance (greedy nearest match; sorting rounded
+    coordinates is not a sound way to pair points that differ in the 10th digit)."""
+    if len(A) != len(B):
+        return False
+    left = [list(p) for p in A]
+    for q in B:
+        best, bi = None, -1
+        for i, p in enumerate(left):
+            dlt = max(abs(x - y) for x, y in zip(p, q)) if len(p) == len(q) else float("inf")
+            if best is None or dlt < best:
+                best, bi = dlt, i
+        if best is None or best > rel * (1 + max(abs(y) for y in q)):
+            return False
+        left.pop(bi)
+    return True
+
+
 def check_grid(case, ctx):
     import itertools
     d = case["defn"]
@@ -212,10 +230,7 @@ def check_grid(case, ctx):
         for (idx, (r, scale)), which in ((expect[0], 0), (expect[-1], -1)):
             ctx.check(ref.vec_close(pts[which], r, scale, 1e-8), "grid-corner",
                       "volume evalpts[%d] = %r, corner is %r" % (which, pts[which], ref.fl(r)))
-        a = _multiset(pts)
-        b = _multiset([[float(c) for c in r] for _, (r, _s) in expect])
-        ok = len(a) == len(b) and all(all(abs(x - y) <= 1e-7 * (1 + abs(y)) for x, y in zip(p, q)) for p, q in zip(a, b))
-        ctx.check(ok, "grid-multiset", "volume evalpts is not the set of grid evaluations")
+        ctx.check(_same_multiset(pts, [[float(c) for c in r] for _, (r, _s) in expect]), "grid-multiset", "volume evalpts is not the set of grid evaluations")
     # clamped shapes: the full grid starts and ends exactly on the corner control points
     if case["sub"] is None or not kinds:
         if not d.get("unclamped"):
